@@ -1,8 +1,8 @@
 """C02 - every frame put on the wire is a well-formed FIX frame.
 
 Correspondence: encoder output (code points) vs the extracted model; the bytes a connection
-hands to its transport (real send_msg through a recording writer) vs utf-8 of the encoder
-output.  Oracle: the independent reference framer codec_common.well_framed (written from the FIX
+hands to its transport (real send_msg through a recording writer) vs latin-1 of the encoder
+output (text without a single-byte form must be refused, nothing written).  Oracle: the independent reference framer codec_common.well_framed (written from the FIX
 specification, shares nothing with the codec) must accept every transmitted byte string."""
 import asyncio
 import json
@@ -92,8 +92,7 @@ def send_through_connection(msgs):
 def check_frame(ctx, case, wire, frame_cp):
     why = cc.well_framed(wire)
     if why:
-        cls = "D9-nonascii-utf8" if any(c >= 128 for c in frame_cp) else None
-        ctx.fail(case, "transmitted bytes are not a well-formed frame: %s" % why, cls)
+        ctx.fail(case, "transmitted bytes are not a well-formed frame: %s" % why, None)
 
 
 def run(ctx):
@@ -124,9 +123,9 @@ def run(ctx):
         ctx.count("enc-ok" if enc[0] == 0 else "enc-exc-%s" % enc[1])
         if enc[0] == 0:
             try:
-                wire = cc.txt(enc[1]).encode("utf-8")       # what send_msg hands to the transport
+                wire = cc.txt(enc[1]).encode("latin-1")     # what send_msg hands to the transport
             except UnicodeEncodeError:
-                ctx.count("utf8-refused")
+                ctx.count("refused-not-single-byte")
                 continue
             check_frame(ctx, {"message": m, "next_out": nout}, wire, enc[1])
     # through the real send_msg
@@ -137,12 +136,15 @@ def run(ctx):
         ctx.count("send_msg-" + (exc or "ok"))
         want = cc.impl_encode(m, "SND", "TGT", nout, False)
         if exc is None:
-            if len(written) != 1 or want[0] != 0 or written[0] != cc.txt(want[1]).encode("utf-8"):
+            if len(written) != 1 or want[0] != 0 or any(c > 255 for c in want[1]) or written[0] != cc.txt(want[1]).encode("latin-1"):
                 ctx.disagree({"message": m}, [w.hex() for w in written], want[:1], "send_msg-bytes-vs-encoder")
             for w in written:
                 check_frame(ctx, {"message": m, "via": "send_msg"}, w, want[1] if want[0] == 0 else [])
-        elif written:
-            ctx.fail({"message": m, "via": "send_msg"}, "send_msg raised %s after writing bytes" % exc)
+        else:
+            if written:
+                ctx.fail({"message": m, "via": "send_msg"}, "send_msg raised %s after writing bytes" % exc)
+            if exc == "UnicodeEncodeError" and not (want[0] == 0 and any(c > 255 for c in want[1])):
+                ctx.disagree({"message": m}, exc, "representable frame", "send_msg-refusal")
     if ctx.model:
         live = [(m, e) for m, e in zip(cases, encs) if e[1][0] != 2]
         out = ctx.model.batch([cc.req_encode(m, "SND", "TGT", e[0], False) for m, e in live])
@@ -161,7 +163,7 @@ def search(ctx, cases):
             continue
         enc = cc.impl_encode(m, "SND", "TGT", rng.randrange(1, 10 ** 6), False)
         if enc[0] == 0:
-            check_frame(ctx, {"message": m}, cc.txt(enc[1]).encode("utf-8"), enc[1])
+            check_frame(ctx, {"message": m}, cc.txt(enc[1]).encode("latin-1", "replace"), enc[1])
         if ctx.failures:
             return
 
@@ -176,7 +178,11 @@ def replay(path):
     if enc[0] != 0:
         print("encoder refused:", enc)
         return 0
-    wire = cc.txt(enc[1]).encode("utf-8")
+    try:
+        wire = cc.txt(enc[1]).encode("latin-1")
+    except UnicodeEncodeError:
+        print("refused: not representable in single bytes")
+        return 0
     why = cc.well_framed(wire)
     print("wire:", wire, "\nreference framer:", why or "accepts")
     return 1 if why else 0
